@@ -848,6 +848,60 @@ class LookupSiblings(Siblings):
 
 
 
+class OneCellSelectors(Sub):
+    name = 'c18.one_cell'
+    rule = ('the index of CHOOSE, the row and column of INDEX, the lookup value and the match type of MATCH given as a one-cell range '
+            '([[v]]), a one-item array ([v]), a one-item tuple or an array literal {v} address what the bare value addresses '
+            '(differential against the scalar evaluation, 14 forms x the values of each form, incl. an error value as the '
+            'selector and INDEX(a, MATCH({x}, a, 0))); non-trivial = all')
+    min_cases = 40
+    min_nontrivial = 40
+    ARR = [10, 20, 30, 40, 50]
+    TXT = ['a', 'b', 'C', 'd?']
+    GRID = [[11, 12, 13], [21, 22, 23]]
+    FORMS = [('CHOOSE(%s,"a","b","c")', [0, 1, 2, 3, 4, 2.0, '2', True]),
+             ('INDEX(xarr,%s)', [0, 1, 3, 5, 6, 3.0, '3']),
+             ('INDEX(xcol,%s)', [1, 3, 5, 6]),
+             ('INDEX(xgrid,%s,2)', [1, 2, 3]),
+             ('INDEX(xgrid,2,%s)', [1, 3, 4]),
+             ('INDEX(xgrid,%s,%s)', [1, 2]),
+             ('MATCH(%s,xarr,0)', [10, 30, 50, 35, 30.0]),
+             ('MATCH(%s,xtxt,0)', ['a', 'c', 'D?', 'zz', '?']),
+             ('MATCH(%s,xarr,1)', [5, 10, 35, 99]),
+             ('MATCH(%s,xcol,-1)', [5, 10, 35, 99]),
+             ('MATCH(30,xarr,%s)', [0, 1, -1]),
+             ('INDEX(xarr,MATCH(%s,xarr,0))', [10, 30, 50]),
+             ('INDEX(xtxt,MATCH(%s,xtxt,0))', ['a', 'C', 'd?']),
+             ('CHOOSE(%s,1,2)', [{'$err': '#DIV/0!'}, {'$err': '#N/A'}])]
+
+    def cases(self, tier, unit):
+        for fi, (f, vals) in enumerate(self.FORMS):
+            for vi in range(len(vals)):
+                yield [fi, vi]
+
+    def check(self, env, case):
+        f, vals = self.FORMS[case[0]]
+        v = env.dec(vals[case[1]])
+        env.nt()
+        env.note(f.split('(')[0])
+        k = f.count('%s')
+        V = {'xarr': list(self.ARR), 'xcol': [[x] for x in self.ARR], 'xtxt': list(self.TXT), 'xgrid': [list(r) for r in self.GRID]}
+        if f.startswith('MATCH(%s,xcol,-1'):
+            V['xcol'] = [[x] for x in self.ARR[::-1]]
+        base = env.evo(f % (('xs',) * k), dict(V, xs=v))
+        ways = [([[v]], 'a one-cell range'), ([v], 'a one-item array'), ((v,), 'a one-item tuple')]
+        for w, how in ways:
+            o = env.evo(f % (('xs',) * k), dict(V, xs=w))
+            if o != base:
+                return fail('%s with xs = %r (%s) gives %r, with the bare value %r it gives %r' % (f % (('xs',) * k), w, how, o, v, base), base, o)
+        if not isinstance(vals[case[1]], dict):
+            g = f % (('{%s}' % lit(v),) * k)
+            o = env.evo(g, dict(V))
+            if o != base:
+                return fail('%s gives %r, with the bare value %r it gives %r' % (g, o, v, base), base, o)
+        return None
+
+
 class LookupScale(Sub):
     name = 'c18.scale'
     rule = ('size ladder of the array length n: INDEX at the first, middle, last and first-outside position of a vector '
@@ -898,4 +952,4 @@ class LookupScale(Sub):
         return out
 
 
-SUBS = [Choose(), IndexGrid(), IndexVector(), MatchExact(), MatchSorted(), MatchSpecialLetters(), IndexMatch(), AfterFloatUse(), LookupWholeFloats(), LookupSiblings(), LookupScale()]
+SUBS = [Choose(), IndexGrid(), IndexVector(), MatchExact(), MatchSorted(), MatchSpecialLetters(), IndexMatch(), AfterFloatUse(), LookupWholeFloats(), LookupSiblings(), LookupScale(), OneCellSelectors()]
